@@ -2,8 +2,10 @@
   Transport.lean — integer play head with loop wrap and end detection; playback positions and regions.
   mirrors: sound/transport.rs, sound/playback_position.rs, sound.rs (`Region`, `EndPosition`)
   `usize` is `Nat`; subtraction that can underflow in Rust is an explicit `Fault.overflow` (Rust's
-  `saturating_sub` is `Nat` subtraction), the repeated-subtraction loops are an explicit `Fault.hang`
-  when their step is zero.
+  `saturating_sub` is `Nat` subtraction; `saturating_add(1)` is `+ 1`: a play head AT `usize::MAX` — a start
+  position or seek that saturated — stays there in kira and is one further here; either way it is past
+  the end of every sound).  The wrap into the loop region is modular arithmetic (no loop, no fuel);
+  a remainder by zero is an explicit `Fault.panic`.
 -/
 import KiraModel.Num
 import KiraModel.Model.Fault
@@ -63,25 +65,32 @@ structure Transport where
   playing : Bool
 deriving DecidableEq, Repr
 
-/-- `while p >= le { p -= le - ls }` — `le - ls` underflows when `le < ls`, never exits when `le = ls`.
-    Each iteration lowers `p` by at least one, so `fuel = p + 1` always suffices. -/
-def wrapDown : Nat → Nat → Nat → Nat → Except Fault Nat
-  | 0, p, _, le => if p < le then .ok p else .error .hang
-  | fuel + 1, p, ls, le =>
-    if p < le then .ok p
-    else if le < ls then .error .overflow
-    else if le = ls then .error .hang
-    else wrapDown fuel (p - (le - ls)) ls le
+/-- mirrors: sound/transport.rs::Transport::increment_position, sound/transport.rs::Transport::seek_to (the forward wrap):
+    `if p >= le { p = ls + (p - ls) % (le - ls) }` — the closed form of the loop
+    `while p >= le { p -= le - ls }` the code used to run (`Proofs/TransportLemmas.lean`: `wrapDownLoop`,
+    `wrapDown_eq_loop`).  `le - ls` underflows when `le < ls`, `% 0` panics when `le = ls`
+    (neither is reachable: `validLoop`). -/
+def wrapDown (p ls le : Nat) : Except Fault Nat :=
+  if p < le then .ok p
+  else if le < ls then .error .overflow
+  else if le = ls then .error .panic
+  else .ok (ls + (p - ls) % (le - ls))
 
-/-- `while p < b { p += le - ls }` (`b = ls + 1` in `decrement_position`, `b = ls` in `seek_to`);
-    `fuel = b + 1` always suffices. -/
-def wrapUp : Nat → Nat → Nat → Nat → Nat → Except Fault Nat
-  | 0, p, b, _, _ => if b ≤ p then .ok p else .error .hang
-  | fuel + 1, p, b, ls, le =>
-    if b ≤ p then .ok p
-    else if le < ls then .error .overflow
-    else if le = ls then .error .hang
-    else wrapUp fuel (p + (le - ls)) b ls le
+/-- mirrors: sound/transport.rs::Transport::decrement_position (the backward wrap):
+    `if p <= ls { p = le - (ls - p) % (le - ls) }` — the closed form of `while p <= ls { p += le - ls }`. -/
+def wrapUpDec (p ls le : Nat) : Except Fault Nat :=
+  if ls < p then .ok p
+  else if le < ls then .error .overflow
+  else if le = ls then .error .panic
+  else .ok (le - (ls - p) % (le - ls))
+
+/-- mirrors: sound/transport.rs::Transport::seek_to (the backward wrap):
+    `if p < ls { p = le - 1 - (ls - p - 1) % (le - ls) }` — the closed form of `while p < ls { p += le - ls }`. -/
+def wrapUpSeek (p ls le : Nat) : Except Fault Nat :=
+  if ls ≤ p then .ok p
+  else if le < ls then .error .overflow
+  else if le = ls then .error .panic
+  else .ok (le - 1 - (ls - p - 1) % (le - ls))
 
 namespace Transport
 
@@ -113,7 +122,7 @@ def setLoopRegion (t : Transport) (loopRegion : Option (Nat × Nat)) : Transport
 /-- the wrap loop of `increment_position` applied to the already incremented position `p` -/
 def incWrap (t : Transport) (p : Nat) : Except Fault Nat :=
   match t.loopRegion with
-  | some (ls, le) => wrapDown (p + 1) p ls le
+  | some (ls, le) => wrapDown p ls le
   | none => .ok p
 
 /-- mirrors: Transport::increment_position -/
@@ -127,7 +136,7 @@ def increment (t : Transport) (numFrames : Nat) : Except Fault Transport :=
 /-- the wrap loop of `decrement_position` -/
 def decWrap (t : Transport) : Except Fault Nat :=
   match t.loopRegion with
-  | some (ls, le) => wrapUp (ls + 2) t.position (ls + 1) ls le
+  | some (ls, le) => wrapUpDec t.position ls le
   | none => .ok t.position
 
 /-- mirrors: Transport::decrement_position -/
@@ -143,8 +152,8 @@ def decrement (t : Transport) : Except Fault Transport :=
 def seekWrap (t : Transport) (position : Nat) : Except Fault Nat :=
   match t.loopRegion with
   | some (ls, le) =>
-    if t.position < position then wrapDown (position + 1) position ls le
-    else wrapUp (ls + 1) position ls ls le
+    if t.position < position then wrapDown position ls le
+    else wrapUpSeek position ls le
   | none => .ok position
 
 /-- mirrors: Transport::seek_to (note: never sets `playing` back to `true`) -/
